@@ -38,10 +38,12 @@ def coder_common(ctx):
     walk.r_sel(ctx)
     walk.r_endian(ctx)
     walk.r_msg(ctx)
+    walk.r_raise(ctx)
 
 
 def c01(ctx):
     misc.r_vtform(ctx)
+    misc2.r_conv(ctx)
     purity.r_state_closure(ctx, SW + 'encode', SW + 'decode')
     coder_common(ctx)
     walk.r_ahead(ctx)
@@ -64,6 +66,7 @@ def c06(ctx):
     live.r_alpha(ctx, fqs, floor=1)
     walk.r_walk(ctx, [SW + 'decode'], {SW + 'decode': 2})
     walk.r_deg(ctx, ['decode'])
+    walk.r_raise(ctx, ('decode',))
     walk.r_vtuse(ctx)
     exc.r_exc(ctx, SW + 'decode', {'ValueError'}, floor=5)
     exc.r_typed_index(ctx, SW + 'set_vt')
@@ -146,6 +149,9 @@ def c04(ctx):
     walk.r_msg(ctx)
     ctx.run.notes.append('termination on out-degree-1 chains depends on the generated graph (C03) and is not decided')
     graph.r_shift(ctx)           # the cascade that guarantees 'no missing out-degree' enumerates predecessors
+    walk.r_raise(ctx, ('encode',))
+    graph2.r_arc(ctx, [SW + 'connect_coding_graph'], floor=3)     # the returned vertex list is not stale
+    misc2.r_conv(ctx)           # encode is total for every message: bit_to_number at any length, the empty message included
 
 
 def c08(ctx):
